@@ -1,6 +1,6 @@
 from engine import Query
 
-ASSUMPTIONS = ["WAV inputs come from an independent RIFF generator: layout in {minimal, extra even-sized chunk before 'fmt ', between 'fmt ' and 'data', after 'data', 16-byte fmt chunk}, data length 0..6, "
+ASSUMPTIONS = ["WAV inputs come from an independent RIFF generator: layout in {minimal, extra even-sized chunk before 'fmt ', between 'fmt ' and 'data', after 'data', 16-byte fmt chunk, 40-byte fmt chunk}, data length 0..6, "
                "the common 18-byte format and all audio bytes symbolic; names and layout are concrete per query",
                "files live in the model file system; names are plain (flat directory)"]
 OUTSIDE = ["more than 2 WAV files, data longer than 6 bytes, odd-sized extra chunks (excluded by the property), more than one extra chunk per file", "base names with bytes >= 0x80"]
@@ -26,7 +26,7 @@ def shape(nw, names=("b.wav", "Track_8c.WAV"), lays=(0, 0), dls=(3, 6), order=(0
 def queries(tier):
     qs = []
     S = [("empty", shape(0)), ("one_min", shape(1)), ("one_after", shape(1, lays=(3, 0), dls=(4, 0))), ("two_min_rev", shape(2, order=(1, 0))),
-         ("two_before_between", shape(2, lays=(1, 2), dls=(0, 5))), ("two_after_first", shape(2, names=("A1.wav", "a0.wav"), lays=(0, 3), dls=(2, 3)))]
+         ("two_before_between", shape(2, lays=(1, 2), dls=(0, 5))), ("one_fmt40", shape(1, lays=(5, 0), dls=(4, 0))), ("two_after_first", shape(2, names=("A1.wav", "a0.wav"), lays=(0, 3), dls=(2, 3)))]
     if tier == "thorough":
         S += [("two_fmt16", shape(2, lays=(4, 0), dls=(6, 1))), ("two_after_both", shape(2, lays=(3, 3), dls=(1, 2))), ("one_between_0", shape(1, lays=(2, 0), dls=(0, 0))),
               ("two_names8", shape(2, names=("ABCDEFGH.wav", "abcdefg.wav"), lays=(1, 0), dls=(2, 2), order=(1, 0)))]
